@@ -106,6 +106,8 @@ def _note_xml(b, i, step, chord=False, rest=False, voice=None, with_alter=True):
     if with_alter:
       s += '<alter>%s</alter>' % b.num('n%d_alter' % i, c.int('n%d_alter' % i, -2,
                                                                2))
+    else:
+      b.vals['n%d_alter' % i] = 0
     s += '<octave>%s</octave></pitch>' % b.num('n%d_oct' % i,
                                                c.int('n%d_oct' % i, 0, 9))
   s += '<duration>%s</duration>' % b.num('n%d_dur' % i, b.vals['n%d_dur' % i])
@@ -126,7 +128,9 @@ def h_score(c):
   mode = c.params.get('mode')  # 'major' | 'minor' | 'dorian' | None
   b = _Builder(c)
   measure_len = D * 4 * beats // beat_type
-  fifths = c.int('fifths', -7, 7)
+  # the key is symbolic in the single-measure templates; the larger templates
+  # (whose paths multiply with the number of notes) use a fixed key
+  fifths = c.int('fifths', -7, 7) if tpl in ('single', 'chord') else -3
   transpose = c.int('transpose', -12, 12) if c.params.get('transpose') else None
   chan = c.int('chan', 1, 16)
   prog = c.int('prog', 1, 128)
@@ -202,7 +206,7 @@ def h_score(c):
     b.vals['n2_dur'] = d2
     v2 = c.int('voice2', 2, 4)
     xml = ('<measure number="1">' + attributes() + tempo(qpm) +
-           _note_xml(b, 0, 'C', voice=1) + _note_xml(b, 1, 'F', voice=1) +
+           _note_xml(b, 0, 'C', voice=1) + _note_xml(b, 1, 'F', voice=1, with_alter=False) +
            '<backup><duration>%s</duration></backup>' % b.num('bk', measure_len) +
            '<forward><duration>%s</duration></forward>' % b.num('fwd', fwd) +
            _note_xml(b, 2, 'A', voice=v2) + '</measure>')
@@ -215,9 +219,10 @@ def h_score(c):
     durs(['n0_dur', 'n1_dur'], measure_len)
     durs(['n2_dur', 'n3_dur'], measure_len)
     xml = ('<measure number="1">' + attributes() + tempo(qpm) +
-           _note_xml(b, 0, 'C', voice=1) + _note_xml(b, 1, 'D', voice=1) +
+           _note_xml(b, 0, 'C', voice=1) + _note_xml(b, 1, 'D', voice=1, with_alter=False) +
            '</measure><measure number="2">' + tempo(q2) +
-           _note_xml(b, 2, 'E', voice=1) + _note_xml(b, 3, 'F', voice=1) +
+           _note_xml(b, 2, 'E', voice=1, with_alter=False) +
+           _note_xml(b, 3, 'F', voice=1, with_alter=False) +
            '</measure>')
     parts_xml.append(xml)
     scripts.append([[('tempo', qpm), ('note', 0, 'C', 1), ('note', 1, 'D', 1)],
@@ -226,8 +231,8 @@ def h_score(c):
     durs(['n0_dur', 'n1_dur'], measure_len)
     durs(['n2_dur'], measure_len)
     xml1 = ('<measure number="1">' + attributes() + tempo(qpm) +
-            _note_xml(b, 0, 'C', voice=1) + _note_xml(b, 1, 'G', voice=1) +
-            '</measure>')
+            _note_xml(b, 0, 'C', voice=1) +
+            _note_xml(b, 1, 'G', voice=1, with_alter=False) + '</measure>')
     xml2 = ('<measure number="1">' + attributes(with_key=False,
                                                 with_transpose=True) +
             _note_xml(b, 2, 'B', voice=1) + '</measure>')
@@ -364,6 +369,13 @@ def jobs(tier):
   add(template='two_voices', divisions=4)
   add(template='two_measures', qpm=60, qpm2=120)
   add(template='two_parts', transpose=True)
+  # measure length in divisions equal to the meter numerator (pickup boundary)
+  add(template='two_measures', divisions=1, meter=[4, 4], qpm=120, qpm2=120)
+  add(template='two_measures', divisions=1, meter=[3, 4], qpm=120, qpm2=90)
+  add(template='single', notes=2, steps=['C', 'D'], mode='major', divisions=2,
+      meter=[6, 8])
+  add(template='single', notes=2, steps=['C', 'D'], mode='major', divisions=1,
+      meter=[6, 4])
   if deep:
     for D in (1, 2, 4, 24):
       for meter in ([4, 4], [3, 4], [6, 8], [2, 2]):
